@@ -106,7 +106,7 @@ def rows():
         trys = []
         for t in _own_trys(fn):
             caught = set()
-            ok = not t.finalbody or True
+            ok = True
             for h in t.handlers:
                 types = _resolve(h.type, ns)
                 # a handler must end by raising or by falling through: a bare `raise` of the same exception
